@@ -252,7 +252,7 @@ impl Monitor for AccessMonitor {
         }
     }
 
-    fn done(&self, _w: &World) -> bool {
+    fn observer(&self) -> bool {
         true
     }
 
